@@ -55,6 +55,12 @@ def unknownHandling : List (String × Bool × Bool × Bool) := [("singlefile.go.
 /-- (template, the `siz == 0` shortcut of Marshal is only taken without required fields, likewise the `len(p) == 0` shortcut of Unmarshal, Unmarshal runs the required-field check) -/
 def requiredGuards : List (String × Bool × Bool × Bool) := [("singlefile.go.tmpl", true, true, true), ("permessage.go.tmpl", true, true, true)]
 
+/-- (template, Marshal() fills a buffer it allocates itself with `make([]byte, siz)` and never re-assigns it, the operands of every `return` of Marshal()) -/
+def marshalReturns : List (String × Bool × List String) := [("singlefile.go.tmpl", true, ["[]byte{}, nil", "buf, err"]), ("permessage.go.tmpl", true, ["[]byte{}, nil", "buf, err"])]
+
+/-- mentions of a message's unknown-field storage (`SetUnknown(`, `XXX_unrecognized`, `unknownFields`) in the non-test Go files of the root package -/
+def shimUnknownStoreMentions : Nat := 0
+
 /-- (template, the first statement of the generated Unmarshal is `m.Reset()`) -/
 def unmarshalResetsFirst : List (String × Bool) := [("singlefile.go.tmpl", true), ("permessage.go.tmpl", true)]
 
